@@ -83,7 +83,7 @@ class HDF5Opacity(InterpolatingOpacity):
         pressure_units = self._spec_dict['p'].attrs['units']
         try:
             p_conversion = u.Unit(pressure_units).to(u.Pa)
-        except UnitConversionError:
+        except (UnitConversionError, ValueError):
             p_conversion = u.Unit(pressure_units, format="cds").to(u.Pa)
 
         self._pressure_grid = self._spec_dict['p'][:]*p_conversion
